@@ -91,7 +91,7 @@ func genNameToks(r *rng.R) []Tok {
 }
 
 var idBoundary = []string{"0", "1", "6", "1000", "65534", "65535", "65536", "2147483647", "2147483648", "4294967294",
-	"4294967295", "4294967296", "99999999999999999999", "007", "0000000000000000000005"}
+	"4294967295", "4294967296", "99999999999999999999", "007", "0000000000000000000005", "-1", "-5", "-2147483648", "-2147483649"}
 var idOdd = []string{"+5", "-0", "-1", "+", "-", "", "abc", "1x", " 5", "5 ", "0x10", "1_0", "1.0", "٣", "1e3"}
 
 func genID(r *rng.R) string {
